@@ -60,16 +60,16 @@ pub fn path_key(name: &[u8]) -> Vec<Vec<u8>> {
     key
 }
 
-/// names the checks take: no white space, no ".." component, a last component other than ".",
+/// names the checks take: no white space, a last component other than "." and "..",
 /// and the classification rule unambiguous; doubled, trailing and leading '/' and interior "."
 /// components are all part of "any non-whitespace bytes"
 pub fn name_in_domain(name: &[u8]) -> bool {
     let base = basename(name);
     !name.is_empty()
         && !name.iter().any(|b| is_ws(*b))
-        && !name.split(|b| *b == b'/').any(|c| c == b"..")
         && !base.is_empty()
         && base != b"."
+        && base != b".."
         && unambiguous(name)
 }
 
